@@ -310,6 +310,13 @@ def column_variant(view, F, k, tolerant):
     return [view.key], "key"
 
 
+def as_lists(F):
+    """the same filter with every condition written as a list [column, op, value]"""
+    if isinstance(F[0][0], str):
+        return [list(a) for a in F]
+    return [[list(a) for a in g] for g in F]
+
+
 def check_rows(view, F, cols, sat, satp, kept, strict_null=False):
     """-> (what|None, aligned: bool)"""
     pf = view.pf
@@ -507,18 +514,26 @@ def run_rows(args):
         label, kept = region13(view, F, sat, satp)
         tolerant = bool((sat != satp).any())
         ocols, vname = column_variant(view, F, k, tolerant)
-        feats = {"ds": view.ds.name, "shape": shape, "cols": vname, "null_sensitive": tolerant, "known_region": label}
-        feats.update(ft)
-        try:
-            what, aligned = check_rows(view, F, ocols, sat, satp, kept)
-        except Exception as e:
-            what, aligned = "%s: %s" % (type(e).__name__, str(e)[:200]), True
-        feats["aligned_checked"] = aligned
-        feats["pages"] = pages_feature(view, ocols, sat & kept if kept is not None else sat)
-        if not aligned and label != "no" and (tolerant or ("pruned_sat" in label and "partdrop" in label)):
-            continue        # only a count could be evaluated and known regions with opposite effects on it (or the
-            #                 interval reading) apply: uninformative
-        res.append((G_ROWS, feats, what is None, what, len(view.full) > 0, ("rows", view.ds.name, F, ocols, False)))
+        # how the conditions are WRITTEN is a dimension of its own: the grammar says 3-sequences, tuples and lists are both in
+        # use (the project's tests, JSON / YAML loaded filters).  Every program is run with tuples; every flat list of >= 2
+        # conditions (the shape whose meaning depends on recognising a condition) and every 4th other program also with lists.
+        forms = [("tuples", F)]
+        if shape in ("and2", "range") or k % 4 == 1:
+            forms.append(("lists", as_lists(F)))
+        for written, Fw in forms:
+            feats = {"ds": view.ds.name, "shape": shape, "cols": vname, "null_sensitive": tolerant, "known_region": label,
+                     "written": written}
+            feats.update(ft)
+            try:
+                what, aligned = check_rows(view, Fw, ocols, sat, satp, kept)
+            except Exception as e:
+                what, aligned = "%s: %s" % (type(e).__name__, str(e)[:200]), True
+            feats["aligned_checked"] = aligned
+            feats["pages"] = pages_feature(view, ocols, sat & kept if kept is not None else sat)
+            if not aligned and label != "no" and (tolerant or ("pruned_sat" in label and "partdrop" in label)):
+                continue        # only a count could be evaluated and known regions with opposite effects on it (or the
+                #                 interval reading) apply: uninformative
+            res.append((G_ROWS, feats, what is None, what, len(view.full) > 0, ("rows", view.ds.name, Fw, ocols, False)))
     return res
 
 
@@ -673,11 +688,12 @@ def run_bounded(ctx):
     ctx.bounded_group(G_ROWS, rule=(
         "datasets %s + foreign %s x every %s filter program of the C05 grammar (atoms: all operators x constants at / "
         "around chunk bounds, outside, other comparable type, in/not-in lists incl. empty; AND pairs, OR pairs, "
-        "OR-of-AND, nested group, ranges) x output columns cycling through {all, key+2 others, key, filter columns "
+        "OR-of-AND, nested group, ranges), conditions written as tuples, and for every flat AND list / range and every 4th "
+        "other program also as lists [column, op, value], x output columns cycling through {all, key+2 others, key, filter columns "
         "only, neither key nor filter columns}. Order comparisons on an unordered categorical are not enumerated "
         "(undefined in pandas). The alignment part is not enumerated when bad_plumbing holds (count part still is: "
         "feature aligned_checked; such a case is dropped when it is also null-sensitive and inside a known region). distinct = (dataset, shape, columns, operators, constant classes, column "
-        "variant); nontrivial = dataset has rows." % (DATASETS, FOREIGN, "2nd" if ctx.tier == "quick" else "")))
+        "variant, written form); nontrivial = dataset has rows." % (DATASETS, FOREIGN, "2nd" if ctx.tier == "quick" else "")))
     ctx.bounded_group(G_MASK, rule=(
         "same datasets x masks {all, none, alternate, every third, first row, last row, first/last row of every row "
         "group, row group 0 only, all but row group 0, last row group only, prefix half, suffix half, 2 seeded "
